@@ -196,3 +196,18 @@ reg("C06",
     rule="one evaluation = one fault / cut / orderly-close / failing-establishment scenario; distinct = distinct (kind, transport, fault call, errno, discovering call) or (cut, transport, FIN/RST, direction, phase, terminal kinds) tuples that actually fired; a case whose injection point was not reached is counted under faults_not_reached/cut_not_reached",
     assumptions=["EPIPE met while writing is the peer's close: the terminal state is then 'closed' (receive 0, send EPIPE)",
                  "for non-orderly death any of 0/ECONNRESET/EPIPE/EPROTO is accepted as the terminal value; stickiness and consistency are demanded"])
+
+reg("C08",
+    title="no resource leaks, stray closes or aborts on any lifecycle path",
+    level="fault_enumeration",
+    technique="fault enumeration over the resource-creating system calls of API scenarios (counting run, then one forked run per (call, index, errno) with the call failing), real descriptor exhaustion by RLIMIT_NOFILE sweep, eventfd-pool bursts, fork + xcm_cleanup at every scenario step; monitors: /proc/self/fd diff against a baseline, LeakSanitizer at exit of every case, descriptor ledger with planted decoys (stray close/epoll_ctl/setsockopt/shutdown on descriptors XCM did not create, EBADF closes), directory listings of UXF and control paths, child death; ASan+UBSan+LSan",
+    level_text="Scenarios = {server, connect, accept, one message each way, close in varying order} on ux, uxf, tcp, tls, utls, btcp, btls, in the flavours plain, DNS name (stub resolver), xcm.local_addr, TLS credentials by value, refused creation attribute (err_close branch), refused connect, address in use, control interface enabled, accept on an empty queue. A counting run lists how often each of socket, accept4, epoll_create1, eventfd, timerfd_create, connect, bind, listen, setsockopt, fopen is called; then every (scenario, call, index 1..n+1, errno) is a forked case in which that call fails. Other families: RLIMIT_NOFILE set to highest-open-descriptor+1+j for j = 0..29 (each j makes a different call the first to hit EMFILE), bursts of >300 sockets (eventfd pool), fork at step k with xcm_cleanup of every socket in the child (child: descriptor table back to baseline, no epoll_ctl/unlink/send/shutdown, LSan clean; owner: traffic continues, files remain). After each case, with everything closed: descriptor table equals the baseline, no alarm from the ledger, decoys intact, UXF and control directories empty, LeakSanitizer silent, process alive.",
+    level_note="Single faults (pairs of faults are not enumerated). The heap oracle is LeakSanitizer's reachability at exit per forked case, not allocator statistics.",
+    harness=STATES + ["c08.c"],
+    stages=[dict(variant="asan", cases={"quick": 3200, "thorough": 48000}, timeout={"quick": 900, "thorough": 3400}, leaks=True)],
+    floors={"quick": {"injections_fired": 1100, "rlimit_runs": 400, "fork_runs": 250, "cleanup_children_checked": 200, "burst_runs": 100, "end_state_checks": 3000, "api_failures": 1500,
+                      "scenarios_with_traffic": 800, "distinct_nontrivial": 1500},
+            "thorough": {"injections_fired": 20000, "rlimit_runs": 5000, "fork_runs": 3000, "distinct_nontrivial": 6000}},
+    rule="one evaluation = one scenario run with one fault (or one rlimit value, one burst, one fork step); distinct = distinct (transport, flavour, failing call, index, errno) sites whose injection fired, (transport, flavour, rlimit) and (transport, flavour, fork step) tuples",
+    assumptions=["baselines are taken after one warm-up connection per transport (OpenSSL/glibc process-wide state)",
+                 "reachable-at-exit library state is not a leak (LeakSanitizer semantics)"])
